@@ -125,6 +125,47 @@ func init() {
 		pub, _ := fin.Public()
 		return "ok " + ils + " " + keyFields(fin) + " " + hx(bin) + " | " + keyFields(pub)
 	}
+	// bip_derive_from <82 bytes> <path> : decode a serialised key (any depth byte), then Derive and DeriveWithIL
+	// the path from it; both walks must agree with each other and with the step-by-step fold of ChildWithIL
+	opImpl["bip_derive_from"] = func(a []string) string {
+		k := &ecckd.ExtendedKey{}
+		if err := k.UnmarshalBinary(unhx(a[0])); err != nil {
+			return "err " + bipErrName(err)
+		}
+		path := parsePath(a[1])
+		il, fin, err := k.DeriveWithIL(path)
+		fin2, err2 := k.Derive(path)
+		// the fold
+		cur, tw := k, (*big.Int)(nil)
+		var err3 error
+		for _, i := range path {
+			var t *big.Int
+			t, cur, err3 = cur.ChildWithIL(i)
+			if err3 != nil {
+				break
+			}
+			if tw == nil {
+				tw = new(big.Int)
+			}
+			tw.Add(tw, t).Mod(tw, curveN)
+		}
+		if (err == nil) != (err2 == nil) || (err == nil) != (err3 == nil) {
+			return fmt.Sprintf("WALKS-DISAGREE DeriveWithIL=%v Derive=%v fold=%v", err, err2, err3)
+		}
+		if err != nil {
+			return "err " + bipErrName(err)
+		}
+		if keyFields(fin) != keyFields(fin2) || keyFields(fin) != keyFields(cur) || (il == nil) != (tw == nil) || (il != nil && il.Cmp(tw) != 0) {
+			return "WALKS-DISAGREE " + keyFields(fin) + " / " + keyFields(fin2) + " / " + keyFields(cur)
+		}
+		ils := "-"
+		if il != nil {
+			ils = hx(be32(il))
+		}
+		bin, _ := fin.MarshalBinary()
+		pub, _ := fin.Public()
+		return "ok " + ils + " " + keyFields(fin) + " " + hx(bin) + " | " + keyFields(pub)
+	}
 	// bip_unmarshal <bytes> : decode, scribble over the input, re-encode: the key must not change
 	opImpl["bip_unmarshal"] = func(a []string) string {
 		data := unhx(a[0])
@@ -142,6 +183,49 @@ func init() {
 		}
 		if keyFields(&k) != before {
 			return "ok " + before + " ALIASES-INPUT"
+		}
+		// decoding into receivers that are already populated and whose slices other objects share: a derived private
+		// key with its neutered twin, a key built around a caller's chain-code slice, a master whose key data and
+		// chain code are two halves of one array.  The result is the same key, and nothing else changes.
+		for variant := 0; variant < 3; variant++ {
+			var recv, other *ecckd.ExtendedKey
+			var callerCC []byte
+			m, err := ecckd.FromBitcoinSeed(bytesRepeat(byte(0x11*(variant+1)), 32))
+			if err != nil {
+				continue
+			}
+			switch variant {
+			case 0:
+				recv, _ = m.Child(0x80000001)
+				if recv != nil {
+					other, _ = recv.Public()
+				}
+			case 1:
+				callerCC = bytesRepeat(0x5c, 32)
+				pk, _ := m.ToPublicECDSA()
+				recv, _ = ecckd.FromPublicKey(pk, callerCC)
+			case 2:
+				recv = m
+			}
+			if recv == nil {
+				continue
+			}
+			otherBefore := ""
+			if other != nil {
+				otherBefore = keyFields(other)
+			}
+			if err := recv.UnmarshalBinary(append([]byte{}, data...)); err != nil {
+				return "ok " + before + " RECEIVER-DEPENDENT-ERROR " + bipErrName(err)
+			}
+			if keyFields(recv) != before {
+				return "ok " + before + " RECEIVER-DEPENDENT variant=" + strconv.Itoa(variant) + " got " + keyFields(recv)
+			}
+			if other != nil && keyFields(other) != otherBefore {
+				return "ok " + before + " WRITES-THROUGH-SHARED-SLICE"
+			}
+			if callerCC != nil && !bytes.Equal(callerCC, bytesRepeat(0x5c, 32)) {
+				return "ok " + before + " WRITES-INTO-CALLER-SLICE"
+			}
 		}
 		bin, _ := k.MarshalBinary()
 		return "ok " + before + " " + hx(bin)
@@ -337,6 +421,46 @@ func genC12(h *H) {
 			}
 		}
 	}
+	// the depth boundary: keys decoded with depth 250..255, paths of length 0..6 (depth 255 is a legal node,
+	// anything deeper is refused), private and neutered, hardened and normal steps
+	{
+		seedD := h.randBytes(32)
+		if m, err := ecckd.FromBitcoinSeed(seedD); err == nil {
+			pubm, _ := m.Public()
+			for _, base := range []*ecckd.ExtendedKey{m, pubm} {
+				for _, depth := range []byte{250, 253, 254, 255} {
+					for _, plen := range []int{0, 1, 2, 5, 6} {
+						kk := *base
+						kk.Depth = depth
+						bin, _ := kk.MarshalBinary()
+						var path []uint32
+						for j := 0; j < plen; j++ {
+							idx := uint32(h.rng.Intn(1 << 20))
+							if base.IsPrivate() && h.rng.Intn(2) == 0 {
+								idx |= 0x80000000
+							}
+							path = append(path, idx)
+						}
+						// oracle values along the walk (as far as it goes)
+						var orc []string
+						cur := &ecckd.ExtendedKey{}
+						if cur.UnmarshalBinary(bin) == nil {
+							for _, i := range path {
+								orc = append(orc, stepOracles(cur, i)...)
+								nx, err := cur.Child(i)
+								if err != nil {
+									break
+								}
+								cur = nx
+							}
+							orc = append(orc, "h160="+hx(pubBytesOf(cur))+":"+hx(h160(pubBytesOf(cur))))
+						}
+						h.doLine("depth-boundary", "bip_derive_from "+hx(bin)+" "+pathStr(path)+" "+strings.Join(orc, " "))
+					}
+				}
+			}
+		}
+	}
 	// depth 255 refusal: a marshalled key with depth 0xff, then one more child
 	h.doLine("hardened-from-public", "bip_derive "+hx(seed)+" 2147483648 0 "+strings.Join(deriveOracles(seed, []uint32{0x80000000}, 0), " "))
 }
@@ -387,7 +511,10 @@ func genC13(h *H) {
 				mut("key-prefix", func(b []byte) { b[45] = byte(pp) })
 			}
 			if key.IsPrivate() {
-				for _, kv := range [][]byte{make([]byte, 32), be32(curveN), be32(new(bigInt).Sub(curveN, bigOne)), bytesRepeat(0xff, 32), be32(bigOne)} {
+				for _, kv := range [][]byte{make([]byte, 32), be32(curveN), be32(new(bigInt).Sub(curveN, bigOne)), bytesRepeat(0xff, 32), be32(bigOne),
+					// around N digit by digit (a word-wise comparison with N that drops or mis-orders a word)
+					be32(h.chainWalk(curveN, 64, 4)), be32(h.chainWalk(curveN, 64, 4)), be32(h.chainWalk(curveN, 32, 8)), be32(h.chainWalk(curveN, 32, 8)),
+					be32(h.chainWalk(curveN, 8, 32)), be32(new(bigInt).Add(curveN, new(bigInt).Lsh(bigOne, uint(h.rng.Intn(128)))))} {
 					kk := kv
 					mut("private-boundary", func(b []byte) { copy(b[46:78], kk) })
 				}
